@@ -135,9 +135,27 @@ deriving DecidableEq, Repr
 
 def Val.isExc : Val → Bool | .exc _ => true | _ => false
 
+/-- the constants of the counter arithmetic (pinned to the source by `igd_counter_pins`) -/
+def offsetConst : Int := 2147483648
+def kibConst : Int := 1024
+
+/-- what the translator reads off the counter code (data only; compared with the model's constants
+    and shapes by `igd_counter_pins` in Props/C20.lean) -/
+structure CounterPins where
+  negTests : List Bool          -- each `async_get_total_*` tests `total < 0` …
+  offsets : List Int            -- … and then sets its offset to this constant, returning `total + offset`
+  wrapTest : Bool               -- `if last_value > current_value: return None`
+  kib : Int                     -- `delta_value / kib` …
+  kibNames : List S             -- … for exactly these value names
+  perSecond : Bool              -- `return delta_value / delta_time.total_seconds()`
+  gatherOrder : List S          -- the getters of the poll, in order
+  returnExceptions : Bool       -- `gather(..., return_exceptions=True)`
+  raiseOnlyWithoutResult : Bool -- the only `raise` sits under `if not non_exceptions`
+deriving DecidableEq, Repr
+
 /-- `async_get_total_*`: new offset and returned value -/
 def readTotal (off : Int) : Raw → Int × Val
-  | .ok n => let off' := if n < 0 then 2147483648 else off; (off', .int (n + off'))
+  | .ok n => let off' := if n < 0 then offsetConst else off; (off', .int (n + off'))
   | .absent => (off, .none)
   | .na => (off, .none)
   | .fail e => (off, .exc e)
@@ -148,13 +166,14 @@ structure Frac where
   den : Int
 deriving DecidableEq, Repr
 
-/-- `_derive_value_per_second`; `tLast`, `tNow` in microseconds; `none` also stands for the
-    ZeroDivisionError at `tNow = tLast` (outside the property's domain, reported by the driver) -/
+/-- `_derive_value_per_second`; `tLast`, `tNow` in microseconds.  NOT modelled: at `tNow = tLast`
+    the code raises ZeroDivisionError (here: a fraction with denominator 0); the property's domain has
+    positive elapsed time, the theorems assume it (`increasing`) and the harness never generates it -/
 def derive (isBytes : Bool) (tNow : Int) (cur : Val) (tLast : Int) (last : Val) : Option Frac :=
   match cur, last with
   | .int c, .int l =>
     if l > c then none
-    else some ⟨(c - l) * 1000000, (if isBytes then 1024 else 1) * (tNow - tLast)⟩
+    else some ⟨(c - l) * 1000000, (if isBytes then kibConst else 1) * (tNow - tLast)⟩
   | _, _ => none
 
 structure Counter where
